@@ -1,6 +1,7 @@
 package main
 
 import (
+	"time"
 	"fmt"
 	"reflect"
 	"sort"
@@ -414,7 +415,7 @@ func runReaders(c *simrun.Ctx) *simrun.Violation {
 	if path := recursionPath(md); path != nil && t.Chance("deep-chain", 1, 40) {
 		// (100: short enough for every operation, Marshal included - a hundred
 		// distinct nested messages of different sizes in flight at once)
-		deepChain = []int{100, 100, 600, 2000, 3500}[t.Draw("deep-chain-depth", 5)]
+		deepChain = []int{100, 100, 100, 600, 2000, 3500}[t.Draw("deep-chain-depth", 6)]
 		av = buildChain(md, path, deepChain)
 		st.Add("fault_deep_chain_of_nested_messages", 1)
 	}
@@ -532,6 +533,12 @@ func runReaders(c *simrun.Ctx) *simrun.Violation {
 	if big && nTasks > 2 {
 		nTasks = 2
 	}
+	if mediumChain {
+		big = true // a hundred levels: two or three tasks, two operations each
+		if nTasks > 3 {
+			nTasks = 3
+		}
+	}
 	if deepChain > 0 {
 		nTasks = 6
 	}
@@ -591,9 +598,12 @@ func runReaders(c *simrun.Ctx) *simrun.Violation {
 	c.Tracef("type=%s tasks=%d value=%s", md.FullName(), nTasks, clip(canon, 500))
 
 	snap0 := simval.TakeSnapshot(shared)
+	hash0 := simval.StructHash(shared)
 	snapEvery := 1 + len(snap0.Entries)/2000
 	if deepChain > 0 {
 		snapEvery = 64 // (the snapshot covers the top 40 levels; taking it is not free)
+	} else if mediumChain {
+		snapEvery = 24
 	}
 	sched := simhook.NewSched()
 	sched.MaxSteps = 400 + t.Draw("maxsteps", 800)
@@ -608,7 +618,18 @@ func runReaders(c *simrun.Ctx) *simrun.Violation {
 	sched.Choose = func(runnable []int, last []int) (int, int) {
 		return runnable[t.Draw("task", len(runnable))], quanta[t.Draw("quantum", len(quanta))]
 	}
+	if deepChain > 0 {
+		// a chain is thousands of levels of dozens of yield points each: long
+		// quanta and a larger step budget, so that every task gets far down
+		// while the others are parked half-way
+		sched.MaxSteps = 4000
+		deepQuanta := []int{300, 2000, 8000, 30000, 100000}
+		sched.Choose = func(runnable []int, last []int) (int, int) {
+			return runnable[t.Draw("task", len(runnable))], deepQuanta[t.Draw("deep-quantum", len(deepQuanta))]
+		}
+	}
 	var snapViol *simrun.Violation
+	var snapNanos int64
 	var schedule []string
 	sched.AfterStep = func(step, task, site int) bool {
 		if len(schedule) < 300 {
@@ -616,6 +637,12 @@ func runReaders(c *simrun.Ctx) *simrun.Violation {
 		}
 		if snapEvery > 1 && step%snapEvery != 0 {
 			return true // large message: the struct is re-read every few steps only
+		}
+		t0 := time.Now()
+		same := simval.StructHash(shared) == hash0
+		snapNanos += time.Since(t0).Nanoseconds()
+		if same {
+			return true
 		}
 		s := simval.TakeSnapshot(shared)
 		if s.Hash != snap0.Hash {
@@ -625,7 +652,10 @@ func runReaders(c *simrun.Ctx) *simrun.Violation {
 		}
 		return true
 	}
+	tRun := time.Now()
 	sched.Run()
+	st.Add("time_ms_concurrent_phase", time.Since(tRun).Milliseconds())
+	st.Add("time_ms_of_it_in_struct_snapshots", snapNanos/1e6)
 	if sched.Abandoned {
 		// a task was blocked on a lock held by a parked task (the code under
 		// test takes a mutex around a yield point): the schedule was given up
